@@ -110,8 +110,6 @@ func Variants(msaIn io.Reader, stdin bool, refID string, annoIn io.Reader, annoS
 			firstmissing = true
 		case err := <-cErr:
 			return err
-		case <-cMSADone:
-			return errors.New("is the pipe to --msa empty?") // TO DO - does this work/is this necessary?
 		}
 	}
 
